@@ -48,7 +48,7 @@ type lifecycleTable struct {
 }
 
 var lifecycleVocab = []string{"wait", "stoptickers", "closechans", "stopall", "wstatus:", "cancel", "make(signal)", "make(err)", "nil(signal)", "nil(err)",
-	"withcancel(ctx)", "set(ctx)", "go:dispatcher", "go:reaper", "go:listener", "go:serve", "push", "notify", "limit=", "newnode", "close(signal)", "close(err)", "pop", "stop", "release"}
+	"withcancel(ctx)", "set(ctx)", "go:dispatcher", "go:reaper", "go:listener", "go:serve", "push", "notify", "limit=", "newnode", "close(signal)", "close(err)", "pop", "stop", "release", "joindisp"}
 
 func errName(v Value) string {
 	switch v.Kind {
